@@ -96,7 +96,17 @@ func (g *goBuilder) value(t types.Type, s *Sexp, depth int) string {
 			}
 			return fmt.Sprintf("%s(%s)", g.typeStr(t), strconv.Quote(string(bs)))
 		case u.Info()&types.IsFloat != 0:
-			return g.fail("float input (uninterpreted in the encoding)")
+			// floats are uninterpreted in the encoding: a model only says which float inputs are equal.
+			// Distinct abstract values are mapped to distinct concrete numbers (a stand-in; whether the real
+			// run violates the obligation is decided afterwards by pinning what the real code returned).
+			str := s.String()
+			k := 0
+			if i := strings.LastIndex(str, "!val!"); i >= 0 {
+				fmt.Sscanf(str[i+5:], "%d", &k)
+				k++
+			}
+
+			return fmt.Sprintf("%s(%d.5)", g.typeStr(t), k)
 		}
 	case *types.Slice:
 		return g.sliceValue(t, u, s, depth)
@@ -662,6 +672,11 @@ func pinValue(vc *VC, term Term, typ types.Type, f []string) []string {
 	case "err", "other":
 		if dyn {
 			out = append(out, fmt.Sprintf("(assert (not ((_ is dnil) %s)))", term))
+			if f[0] == "other" && len(f) > 1 {
+				if c := findBox(vc, f[1]); c != nil {
+					out = append(out, fmt.Sprintf("(assert ((_ is %s) %s))", c.ctor, term))
+				}
+			}
 		}
 	}
 	return out
